@@ -26,6 +26,12 @@ class IntSetV(object):
     def __init__(self, M, S, n):
         self.M, self.S, self.n = M, S, n
 
+    def as_sequence(self, I):
+        """direct iteration over the set: its elements in an unspecified order (an arbitrary enumeration A of the members, related to
+        the increasing enumeration only by having the same length and the same elements)"""
+        A = z3.Function(fresh_name('anyOrderV'), z3.IntSort(), z3.IntSort())
+        return I.ctx.alloc(SList(self.n, (lambda q, A=A: A(to_z3(q))), None))
+
 
 def _select_region(mod):
     fn, ci = mod.find(QUAL)
